@@ -668,14 +668,25 @@ func (a *A) ruleCapsScaleWithInput() int {
 		}
 		loops := sccLoops(fn)
 		allInstrs(fn, func(in ssa.Instruction) {
-			bo, ok := in.(*ssa.BinOp)
-			if !ok || bo.Op != token.GTR && bo.Op != token.GEQ || !isIntType(bo.X.Type()) {
+			bo0, ok := in.(*ssa.BinOp)
+			if !ok || !isIntType(bo0.X.Type()) {
+				return
+			}
+			// `counter > cap` in either orientation (`cap < counter`): the counter is the greater side
+			bo := &ssa.BinOp{Op: bo0.Op, X: bo0.X, Y: bo0.Y}
+			switch bo0.Op {
+			case token.GTR, token.GEQ:
+			case token.LSS:
+				bo.Op, bo.X, bo.Y = token.GTR, bo0.Y, bo0.X
+			case token.LEQ:
+				bo.Op, bo.X, bo.Y = token.GEQ, bo0.Y, bo0.X
+			default:
 				return
 			}
 			// X is a loop counter of a loop that contains this comparison
 			counter := false
 			for _, l := range loops {
-				if l.Blocks[bo.Block()] && l.progressValue(bo.X) {
+				if l.Blocks[bo0.Block()] && l.progressValue(bo.X) {
 					counter = true
 				}
 			}
@@ -683,12 +694,12 @@ func (a *A) ruleCapsScaleWithInput() int {
 				return
 			}
 			// only caps whose overflow leaves the function with an error
-			iff, isIf := bo.Block().Instrs[len(bo.Block().Instrs)-1].(*ssa.If)
-			if !isIf || iff.Cond != ssa.Value(bo) {
+			iff, isIf := bo0.Block().Instrs[len(bo0.Block().Instrs)-1].(*ssa.If)
+			if !isIf || iff.Cond != ssa.Value(bo0) {
 				return
 			}
 			retErr := false
-			for _, in2 := range bo.Block().Succs[0].Instrs {
+			for _, in2 := range bo0.Block().Succs[0].Instrs {
 				if r, ok := in2.(*ssa.Return); ok && len(r.Results) > 0 && !isNilConst(r.Results[len(r.Results)-1]) {
 					retErr = true
 				}
@@ -698,7 +709,7 @@ func (a *A) ruleCapsScaleWithInput() int {
 			}
 			n++
 			if why, ok := capReviewed[fname(fn)]; ok {
-				a.Ok(fname(fn)+"#cap-scales", bo.Pos(), "reviewed: %s", why)
+				a.Ok(fname(fn)+"#cap-scales", bo0.Pos(), "reviewed: %s", why)
 				return
 			}
 			scales := false
@@ -711,7 +722,7 @@ func (a *A) ruleCapsScaleWithInput() int {
 					}
 				}
 			}
-			a.Check(scales, fname(fn)+"#cap-scales", bo.Pos(), "the iteration cap grows with the length of the statement",
+			a.Check(scales, fname(fn)+"#cap-scales", bo0.Pos(), "the iteration cap grows with the length of the statement",
 				"the loop gives up after "+TermOf(bo.Y, nil).String()+" iterations with an error that Parse recovers from: a clause with more tokens is silently dropped and the statement accepted without it")
 		})
 	}
